@@ -6,7 +6,7 @@ from common import run_model, res_decode, exn_name
 RULE = ('all 30 README release protocols x the 20 core packets: reified id and definition against the independent table '
         '(Spec/ProtocolTable.v, evaluated by the Coq kernel), and on the real code: Packet.write frames with boundary / zero / random '
         'field values against length + published id + the model encoding of the published layout, and reference bytes decoded by '
-        'the real read. Non-trivial = packet with at least one field; distinct by (release, packet, values).')
+        'the real read; every frame again through one context whose protocol_version hops between releases. Non-trivial = packet with at least one field; distinct by (release, packet, values).')
 
 NAMES = ['handshake', 'status request', 'status response', 'ping', 'pong', 'login start', 'login success', 'login disconnect',
          'set compression', 'encryption request', 'encryption response', 'keep alive (clientbound)', 'keep alive (serverbound)',
@@ -98,6 +98,29 @@ def run(chk):
                         py = m[1] = py % 128
                     vals.append((nm, py, m))
                 jobs.append((v, p, q, ctx, cls, sid, lay, vals, cc, key, case))
+    # ---- evaluations that came out differently in another evaluation order / on a reused context (reifier second sweeps)
+    for a in t.get('per_version_alt', []):
+        v = a['proto']
+        if v not in rel:
+            continue
+        sp = run_model([('spec_packet', [p, v]) for p in core])
+        for p, (ex, tbl, sid, lay) in zip(core, sp):
+            q = gen_tables.CORE_PACKETS[p]
+            tn = gen_tables.TABLE_NAMES[tbl]
+            lay = [sx_ty(x) for x in lay]
+            chk.count('history', [v, p, a['order']], True)
+            e = a['evaluation']['classes'].get(q)
+            member = q in a['evaluation']['tables'][tn]
+            case = {'release': v, 'packet': NAMES[p], 'class': q, 'order': a['order'], 'previous': a['previous']}
+            how = 'evaluated %s after protocol %s on a reused context' % (a['order'], a['previous'])
+            if bool(ex) != member:
+                chk.violation('history', 'history:%s:%d:member' % (NAMES[p], v), dict(case=case), '%s at release %d, %s: registered=%s, published=%s' % (NAMES[p], v, how, member, bool(ex)))
+            elif ex and e['id'] != sid:
+                chk.violation('history', 'history:%s:%d:id' % (NAMES[p], v), dict(case=case, expected=sid, observed=e['id']),
+                              '%s at release %d, %s, has id %r; the published id is 0x%02X' % (NAMES[p], v, how, e['id'], sid))
+            elif ex and (not isinstance(e['def'], list) or len(e['def']) != len(lay) or not all(compat(ty, s2) for (_n, ty), s2 in zip(e['def'], lay))):
+                chk.violation('history', 'history:%s:%d:layout' % (NAMES[p], v), dict(case=case, expected=lay, observed=e['def']),
+                              '%s at release %d, %s, is laid out differently from the published layout' % (NAMES[p], v, how))
     # ---- concrete bytes on the real code against the published layout
     reqs, live = [], []
     for job in jobs:
@@ -142,6 +165,46 @@ def run(chk):
             what = 'read raised %s' % exn_name(ex)
         if what:
             chk.violation('bytes', key + ':read', dict(case=dict(case, bytes=r[1].hex()[:600]), observed=what), '%s at release %d: decoding the published byte layout: %s' % (NAMES[p], v, what))
+    # ---- the same frames through ONE context object whose protocol_version is reassigned between packets (what Connection
+    #      does during version negotiation, and what multi-version tools do), in an order that hops between releases
+    shared = ConnectionContext(protocol_version=rel[0])
+    order = [(job, fr, r) for (job, fr), r in zip(live, res) if res_decode(r, lambda x: bytes(x))[0] == 'ok']
+    rng.shuffle(order)
+    prev = None
+    for job, fr, r in order:
+        v, p, q, ctx, cls, sid, lay, vals, cc, key, case = job
+        shared.protocol_version = v
+        chk.count('reused-context', [v, p, fr.hex()[:300]], len(lay) > 0)
+        pk = cls(context=shared)
+        for nm, py, _m in vals:
+            setattr(pk, nm, py)
+        r = res_decode(r, lambda x: bytes(x))
+        body = c05.varint(sid) + r[1]
+        exp = c05.varint(len(body)) + body
+        what = None
+        try:
+            got = c05.frame_of(pk)
+            if got != exp:
+                what = 'is written as %s; the published protocol prescribes %s' % (got.hex()[:50], exp.hex()[:50])
+        except Exception as ex:
+            got = None
+            what = 'Packet.write raised %s' % exn_name(ex)
+        if what is None:
+            pk2 = cls(context=shared)
+            rb = Buf(r[1])
+            try:
+                pk2.read(rb)
+                if rb.pos != len(r[1]):
+                    what = 'read consumed %d of the %d published bytes' % (rb.pos, len(r[1]))
+                elif pk2.id != sid:
+                    what = 'a packet read under this release reports id %r; published 0x%02X' % (pk2.id, sid)
+            except Exception as ex:
+                what = 'read of the published bytes raised %s' % exn_name(ex)
+        if what:
+            chk.violation('reused-context', 'reused:' + key, dict(case=dict(case, previous_release_on_this_context=prev, values=repr([(n, py) for n, py, _m in vals])[:600]),
+                                                                   expected=exp.hex()[:600], observed=got.hex()[:600] if got else None),
+                          '%s at release %d on a context previously used at release %s %s' % (NAMES[p], v, prev, what))
+        prev = v
     if live:
         (v, p, *_), fr = live[len(live) // 2]
         chk.sample('bytes', {'release': v, 'packet': NAMES[p], 'frame': fr.hex()[:80]}, k=3)
